@@ -561,11 +561,34 @@ var _ rpc.Resources
 //@   loop 1 invariant callcount("Disconnect") == old(callcount("Disconnect")) + iters1 && card(s.conns) == old(card(s.conns)) && s.conns == old(s.conns)
 //@   loop 1 invariant s.stop == old(s.stop) && s.stopping == old(s.stopping) && (forall k string :: has(s.conns, k) ==> s.conns[k] != nil)
 
+// start: a running service is left alone; otherwise the stop channel is created with room for
+// one cause before anything else is started, so that Stop can always report it.
+//@ func (*Service).startMQClient
+//@   trusted
+//@   ensures s.stop == old(s.stop) && s.stopping == old(s.stopping)
+//@ func (*Service).startMetricsServer
+//@   trusted
+//@   ensures s.stop == old(s.stop) && s.stopping == old(s.stopping)
+//@ func (*Service).startHTTPServer
+//@   trusted
+//@   ensures s.stop == old(s.stop) && s.stopping == old(s.stopping)
+//@ func (*Service).start
+//@   requires s != nil
+//@   ensures[C20] old(s.stop) != nil ==> result == nil && s.stop == old(s.stop) && callcount("startMQClient") == old(callcount("startMQClient"))
+//@   ensures[C20] old(s.stop) == nil && !old(s.stopping) ==> s.stop != nil && fresh(s.stop) && cap(s.stop) >= 1
+//@   ensures[C20] old(s.stop) == nil && old(s.stopping) ==> result != nil && s.stop == nil
+//@   assert[C20] s.startMQClient#1: s.stop != nil && cap(s.stop) >= 1
+//@   safety[C15]
+
 // Stop: does nothing unless the service is running and not already stopping; otherwise it
 // marks the service as stopping, closes the client sockets before the messaging client, reports
 // the cause on the stop channel exactly once, and leaves the service restartable.
 //@ func (*Service).Stop
 //@   requires s != nil
+// (the stop channel has room for the cause: reporting it never blocks Stop, whether or not
+// anybody is receiving - established by start, relied on here)
+//@   assumes s.stop != nil ==> cap(s.stop) >= 1
+//@   assert[C20] send#1: cap(s.stop) >= 1 && sendcount() == old(sendcount())
 //@   ensures[C20] old(s.stop) == nil || old(s.stopping) ==> s.stop == old(s.stop) && s.stopping == old(s.stopping) &&
 //@       sendcount() == old(sendcount()) && callcount("stopWSHandler") == old(callcount("stopWSHandler")) && callcount("stopMQClient") == old(callcount("stopMQClient"))
 //@   ensures[C20] old(s.stop) != nil && !old(s.stopping) ==> s.stop == nil && !s.stopping && sendcount() == old(sendcount()) + 1 && lastsent() == err &&
